@@ -9,7 +9,7 @@ META = dict(
     level_note='Trusted: translator, shims, CBMC; floating-point expression trees are compared by structure (same operator tree on the '
                'same operands), so an algebraically equal re-association is reported as undecided after native replay, not as a violation; '
                'Surface::local_value and NaturalCoordinate::get_surface_point are contract stubs (any value).',
-    scope='get_temperature of uniform / adiabatic / linear for continental plate, oceanic plate, mantle layer',
+    scope='get_temperature of uniform / adiabatic / linear for continental plate, oceanic plate, mantle layer, subducting plate, fault; chapman geotherm; uniform raw velocity of the area features',
     not_covered=['tian2019 water content, mass conserving slab temperature, random models (no closed form documented)'],
     enforced_elsewhere={},
 )
@@ -30,6 +30,26 @@ for fam, fdir in FAMILIES:
             replace=['Objects_Surface_local_value', 'Objects_NaturalCoordinate_get_surface_point'],
             outline_fp='all', defines={'FAM': fam, kdef: 1, 'WB_VEC_CAP': 2},
             expect_fail=['REACHABILITY-GUARD'], spurious_if_oracle_holds=True))
+for fam, fdir, isf in [('SubductingPlate', 'subducting_plate', False), ('Fault', 'fault', True)]:
+    for kind, kfile, kdef in KINDS:
+        fn = 'Features_%sModels_Temperature_%s_get_temperature' % (fam, kind)
+        dd = {'FAM': fam, kdef: 1, 'WB_VEC_CAP': 2}
+        if isf:
+            dd['IS_FAULT'] = 1
+        UNITS.append(dict(
+            name='%s_T_%s' % (fdir, kfile), enforce=fn, contracts='c05_slab_temperature.c', harness='h_slab_temperature',
+            targets=[dict(tu='source/world_builder/features/%s_models/temperature/%s.cc' % (fdir, kfile),
+                          qual='WorldBuilder::Features::%sModels::Temperature::%s::get_temperature' % (fam, kind))],
+            outline_fp='all', defines=dd, expect_fail=['REACHABILITY-GUARD']))
+for fam, fdir in FAMILIES:
+    fn = 'Features_%sModels_Velocity_UniformRaw_get_velocity' % fam
+    UNITS.append(dict(
+        name='%s_V_uniform_raw' % fdir, enforce=fn, contracts='c05_velocity_uniform_raw.c', harness='h_velocity',
+        targets=[dict(tu='source/world_builder/features/%s_models/velocity/uniform_raw.cc' % fdir,
+                      qual='WorldBuilder::Features::%sModels::Velocity::UniformRaw::get_velocity' % fam)],
+        stub=['Objects_Surface_local_value', 'Objects_NaturalCoordinate_get_surface_point'], nothrow=['Objects_NaturalCoordinate_get_surface_point'],
+        replace=['Objects_Surface_local_value', 'Objects_NaturalCoordinate_get_surface_point'],
+        outline_fp='all', defines={'FAM': fam, 'WB_VEC_CAP': 2}, expect_fail=['REACHABILITY-GUARD']))
 UNITS.append(dict(
     name='continental_plate_T_chapman', enforce='Features_ContinentalPlateModels_Temperature_Chapman_get_temperature', contracts='c05_area_temperature.c',
     targets=[dict(tu='source/world_builder/features/continental_plate_models/temperature/chapman.cc',
@@ -108,8 +128,57 @@ def one_case(fdir, kind, m, fmin, fmax, depths, work):
     return None
 
 
+def fault_oracle(kind, work, rnd):
+    """vertical fault along the y axis (dip 90 degrees): the distance from the fault centre plane of a point (x, y) is |x|;
+    a model with its own [min, max] distance range must only act on points whose |x| lies in that range"""
+    import oracle
+    for trial in range(6):
+        dmin = rnd.choice([0.0, 5e3])
+        dmax = rnd.choice([10e3, 20e3])
+        m = {"model": kind, "min distance fault center": dmin, "max distance fault center": dmax}
+        if kind == 'uniform':
+            m["temperature"] = 1234.5
+        if kind == 'linear':
+            m["center temperature"], m["side temperature"] = 1000.0, 400.0
+        text = json.dumps({"version": "1.1", "coordinate system": {"model": "cartesian"}, "gravity model": {"model": "uniform", "magnitude": G},
+                           "potential mantle temperature": TP, "thermal expansion coefficient": ALPHA, "specific heat": CP, "features": [
+            {"model": "fault", "name": "F", "min depth": 0, "max depth": 400e3, "coordinates": [[0, -500e3], [0, 500e3]], "dip point": [1e6, 0],
+             "segments": [{"length": 300e3, "thickness": [100e3], "angle": [90]}],
+             "temperature models": [{"model": "uniform", "temperature": 500.0}, m]}]})
+        q = oracle.Q(text, work)
+        try:
+            if q.construct_error:
+                return dict(status='error', detail='world not constructed: %s' % q.construct_error)
+            for _ in range(25):
+                x = rnd.choice([-1, 1]) * rnd.choice([1e3, 7e3, 15e3, 30e3, 45e3])
+                d = rnd.choice([2e3, 5e3, 8e3, 15e3, 50e3, 150e3])
+                st, v = q.ask('t3 %r %r %r %r' % (x, 0.0, 1000e3 - d, d))
+                if st != 'OK':
+                    continue
+                got = float.fromhex(v[0])
+                dist = abs(x)
+                if not (dmin <= dist <= dmax):
+                    exp = 500.0
+                elif kind == 'uniform':
+                    exp = 1234.5
+                elif kind == 'adiabatic':
+                    exp = adiab(d)
+                else:
+                    exp = 1000.0 + (dist - dmin) * (400.0 - 1000.0) / (dmax - dmin)
+                if abs(got - exp) > 1e-6 * max(1.0, abs(exp)):
+                    return dict(status='violated', detail='vertical fault (thickness 100 km) with temperature models [uniform 500 K, %s]: at distance %r m from the fault centre, depth %r m the library returns %r K, the documented behaviour gives %r K'
+                                                          % (json.dumps(m), dist, d, got, exp))
+        finally:
+            q.close()
+    return dict(status='holds', detail='6 vertical-fault worlds x 25 points agree with the documented %s model' % kind)
+
+
 def native_oracle(witness, work, search_seed=None):
     fdir, kind = witness.get('family', 'continental_plate'), witness.get('kind', 'linear')
+    if fdir == 'fault':
+        return fault_oracle(kind, work, random.Random(search_seed if search_seed is not None else 1))
+    if fdir == 'subducting_plate':
+        return dict(status='no-native-oracle', detail='no replay oracle for slab models yet')
     rnd = random.Random(search_seed if search_seed is not None else 1)
     cases = []
     if witness.get('model'):
